@@ -4,6 +4,8 @@ import json
 from .units.r import UnitR
 from .units.m import UnitM
 from .units.s import UnitS
+from .units.w import UnitW
+from .units import w_replay
 from .units import r_replay
 
 
@@ -110,6 +112,50 @@ PROPS['C07'] = {
     'assumptions': ['reqwest stand-ins', 'req.dom(None): numerals beyond i128 in numeric-restricted text are outside the domain (known finding of C06)'],
 }
 
+
+def c15_witness(pid, fails, repo):
+    res = w_replay.search(repo)
+    out = {'found': bool(res['anomalies']), 'documents': res['documents'], 'write_calls_injected': res['write_calls_injected'],
+           'skipped': res['skipped']}
+    if res['anomalies']:
+        out['input'] = res['anomalies'][0]
+        out['more'] = res['anomalies'][1:6]
+    if res.get('error'):
+        out['error'] = res['error']
+    return out
+
+
+def c15_replay(path):
+    rep = json.load(open(path))
+    print('failed obligation:', rep['failed_obligation'])
+    for f in rep['failures']:
+        print(f['verus_output'])
+    res = w_replay.search('/repo')
+    print('fault injection on the current tree:', res['documents'], 'documents,', res['write_calls_injected'], 'injected failures,',
+          len(res['anomalies']), 'anomalies')
+    for a in res['anomalies'][:10]:
+        print('  ', a)
+    return 1 if res['anomalies'] else 0
+
+
+PROPS['C15'] = {
+    'units': [UnitW], 'level': 'proof', 'design_ref': 'DESIGN.md 4.15', 'witness': c15_witness, 'replay': c15_replay,
+    'scope': 'every function that writes generated text: the WriteXml impls for FileHeader, Helpers, RustDocument, RustNode, RustType, '
+             'Field, Restrictions, SoapBinding, SoapService and the free writers write_complex_type, write_simple_type, write_type_alias, '
+             'write_soap_operation, write_soap_action, write_async_soap_call, write_check_restrictions_header/footer',
+    'level_text': 'Deductive proof (Verus/Z3) over the real text of all 23 writer functions against std::io::Write with a ghost history '
+                  '(failed / complete): from a clean sink, a function that returns Ok leaves the sink with no failed write and no '
+                  'dropped bytes, and no unwrap/expect on a write result can panic. Holds for every document, every failure index '
+                  'and every loop iteration (loop invariants are spliced at loop ordinals), by modular composition of the callee contracts.',
+    'level_note': 'Trusted: the ghost contract of io::Write::write_fmt ("all bytes or an error" — std\'s write_all loop, which is what '
+                  'makes short-writing sinks lossless); thiserror\'s #[from] conversion; stand-ins for Inflector/Url/const_format. '
+                  'Extraction drops (listed in evidence.coverage.extraction_dropped): pure sub-expressions Verus cannot process '
+                  '(str::split, closures with tuple patterns, HashMap/filter iterables) are replaced by unconstrained values; none '
+                  'mentions the sink. Byte-identity of the output under short writes is the write_fmt contract, not separately proved.',
+    'assumptions': ['std::io::Write::write_fmt writes the whole formatted text or returns an error', 'dropped pure sub-expressions do not panic (C13 scope note)',
+                    'iterators replaced by an unconstrained Vec are finite'],
+}
+
 PLANNED = 'claimed in DESIGN.md but the check is not built yet at this commit (listed here so that no unbuilt check is advertised)'
 NOT_APPLICABLE = {
     'C01': 'Compilability of a whole emitted file is decided by rustc name resolution/type checking and yaserde_derive proc-macro expansion; no pre/postcondition of a zeep function entails it and Verus cannot load the dependency crates (DESIGN 4.1).',
@@ -120,7 +166,7 @@ NOT_APPLICABLE = {
     'C17': 'Process-level observables (exit status, panics as error path, clap, File::create effects); no function result to attach a postcondition to and no file-system model in Verus/Kani (DESIGN 4.17).',
     'C18': 'Send/Sync are auto traits decided by rustc\'s trait solver over the real reqwest future types; neither verifier has a notion of auto traits (DESIGN 4.18).',
     'C02': PLANNED, 'C05': PLANNED, 'C08': PLANNED, 'C09': PLANNED, 'C10': PLANNED,
-    'C13': PLANNED, 'C14': PLANNED, 'C15': PLANNED,
+    'C13': PLANNED, 'C14': PLANNED,
 }
 NOTES = ('All checks: ./check <id> [--tier quick|thorough]; exit 0 ok, 1 VIOLATION, 2 inconclusive (lost anchor / unsupported '
          'construct / solver limit / vacuity guard) which is never an alarm. Known findings: /verif/known_findings.json. '
